@@ -16,6 +16,7 @@ import (
 	"verif/engine/dfs"
 	"verif/engine/evid"
 	"verif/engine/shard"
+	"verif/props/coll"
 	"verif/refenc"
 
 	"github.com/whatap/golib/lang/pack"
@@ -157,7 +158,7 @@ func (s scen) scenario() dfs.Scenario {
 				// horizon: once the producers are done, the queue is drained and the background
 				// goroutine is idle in its poll sleep, cancel the context
 				x.Yield(sched.Op{Kind: "stopper-wait", Enabled: func() bool {
-					return producersLeft == 0 && cl.Queue.Size() == 0 && proc.PendingKind() == "sleep"
+					return producersLeft == 0 && coll.QueueLen(cl.Queue) == 0 && proc.PendingKind() == "sleep"
 				}})
 				cancel()
 			})
@@ -367,6 +368,9 @@ func Run(c *evid.Ctx) {
 		return
 	}
 	shard.Spawn(c, 16, true)
+	// the premise of the enumeration above (atomic blocks = data-race-free code) is checked in the
+	// race mode of the explorer (race.go)
+	shard.SpawnRace(c, 8)
 	c.Cov["traces_validated_against_impl"] = c.Counter("states")
 	c.Cov["rule"] = "states = complete executions (sender schedule x network answers) of the real client over the in-memory network; transitions = scheduler steps; per connection the received bytes must parse into whole frames (only the last may be cut, and only where the peer reset), every frame equals the reference frame (source, version, pcode, licence hash of the effective licence, length, payload) of exactly one send, no duplicates, real-time order preserved, nil-returning direct sends always delivered, no loss at all without faults"
 	c.Assume("the network is an in-memory fake: a Write is accepted entirely or up to a chosen byte offset followed by a reset; dial and SetWriteDeadline may fail; kernel behaviour is not modelled")
